@@ -47,29 +47,31 @@ Section Ext.
   Proof. unfold parse_data. now rewrite data_loop_ext, oend_ext. Qed.
 
   (* ---------------------------------------------------------------- option names *)
-  (* characters of a name without white space *)
+  (* characters of an option name; white space other than the newline may stand inside *)
+  Definition onb (c : Z) : bool :=
+    (0 <? c) && (c <? 256) && negb (c =? 10) && negb (c =? 61) && negb (c =? 35) && negb (c =? 46).
+  Lemma onb_spec c : onb c = true <-> (0 < c < 256 /\ c <> 10 /\ c <> 61 /\ c <> 35 /\ c <> 46).
+  Proof. unfold onb. rewrite !andb_true_iff, !negb_true_iff, !Z.ltb_lt, !Z.eqb_neq. tauto. Qed.
+  (* characters of a section name of the enclosed family: no white space; the assign character is an ordinary one *)
   Definition onc (c : Z) : bool :=
-    (0 <? c) && (c <? 256) && negb (isspace c) && negb (c =? 61) && negb (c =? 35) && negb (c =? 46).
-  Lemma onc_spec c : onc c = true <-> (0 < c < 256 /\ isspace c = false /\ c <> 61 /\ c <> 35 /\ c <> 46).
+    (0 <? c) && (c <? 256) && negb (isspace c) && negb (c =? 35) && negb (c =? 46).
+  Lemma onc_spec c : onc c = true <-> (0 < c < 256 /\ isspace c = false /\ c <> 35 /\ c <> 46).
   Proof. unfold onc. rewrite !andb_true_iff, !negb_true_iff, !Z.ltb_lt, !Z.eqb_neq. tauto. Qed.
+  Lemma hspace_onb c : hspace c = true -> onb c = true.
+  Proof. intros H. apply hspace_spec in H. apply onb_spec. lia. Qed.
 
   Variable take : Z.
 
-  Lemma option_step_name c a0 l s :
-    onc c = true -> 0 < a0 ->
-    option_loop f take c (a0 :: l) s = option_loop f take a0 l (addch (tick (set_valid s) a0) a0).
+  (* one character of the name (or a blank behind it) processed, the next one read *)
+  Lemma option_step c a0 l s :
+    onb c = true -> 0 < a0 ->
+    option_loop f take c (a0 :: l) s
+    = option_loop f take a0 l (addch (tick (if isspace c then s else set_valid s) a0) a0).
   Proof.
-    intros Hc P. apply onc_spec in Hc. destruct Hc as (B & SP & N1 & N2 & _).
-    rewrite option_loop_eq. unfold option_body. rewrite SP.
-    destruct DF as (_ & A & O & _). rewrite A, O, iscomment_ext, iscomment_fd. zb. reflexivity.
-  Qed.
-  Lemma option_step_blank c a0 l s :
-    hspace c = true -> 0 < a0 ->
-    option_loop f take c (a0 :: l) s = option_loop f take a0 l (addch (tick s a0) a0).
-  Proof.
-    intros Hc P. apply hspace_spec in Hc as Hc'. assert (SP : isspace c = true) by (apply isspace_spec; lia).
-    rewrite option_loop_eq. unfold option_body. rewrite SP.
-    destruct DF as (_ & A & O & _). rewrite A. zb. reflexivity.
+    intros Hc P. apply onb_spec in Hc. destruct Hc as (B & N10 & N61 & N35 & _).
+    rewrite option_loop_eq. unfold option_body.
+    destruct DF as (_ & A & O & _). rewrite A, O, iscomment_ext, iscomment_fd.
+    destruct (isspace c); zb; reflexivity.
   Qed.
   Lemma option_step_assign l s :
     option_loop f take 61 l s = option_assign f take MissingBuffer l s.
@@ -78,50 +80,53 @@ Section Ext.
     destruct DF as (_ & A & _). rewrite A. reflexivity.
   Qed.
 
-  (* name characters: appended, each one moves the valid length *)
-  Lemma opt_scan : forall w c s d l E R F,
-    Forall (fun x => onc x = true) (c :: w) -> 0 < d < 256 ->
-    pth s = mkPath E (c :: R) (len (c :: R)) F true true -> len (c :: R) + len w < VALID_MOD ->
-    exists s', option_loop f take c (w ++ d :: l) s = option_loop f take d l s' /\
-               pth s' = mkPath E (d :: rev w ++ c :: R) (len (d :: rev w ++ c :: R)) F true true /\
-               valid s' = len (rev w ++ c :: R) /\ pcurr s' = pcurr s.
+  (* the state behind one step: the character is kept, the valid length follows the last non-blank *)
+  Lemma opt_state c a0 s E R F :
+    0 < c < 256 -> 0 < a0 < 256 ->
+    pth s = mkPath E (c :: R) (len (c :: R)) F true true -> valid s = vlr R ->
+    (isspace c = false -> len (c :: R) < VALID_MOD) ->
+    let s1 := addch (tick (if isspace c then s else set_valid s) a0) a0 in
+    pth s1 = mkPath E (a0 :: c :: R) (len (a0 :: c :: R)) F true true /\ valid s1 = vlr (c :: R) /\ pcurr s1 = pcurr s.
   Proof.
-    induction w as [|x w IH]; intros c s d l E R F FA PD HP HL.
-    - inversion FA as [|? ? Hc _]; subst. cbn [app]. rewrite option_step_name by (assumption || lia).
-      rewrite len_nil in HL. pose proof (len_nonneg R). rewrite len_cons in HL.
+    intros Bc Ba HP HV HL. cbn zeta. cbn [vlr]. pose proof (len_nonneg R). rewrite len_cons in HL.
+    destruct (isspace c).
+    - split; [rewrite pth_addch, pth_tick, HP; now rewrite addchar_keep by lia|]. split; now autorewrite with pst.
+    - specialize (HL eq_refl).
       destruct (set_valid_path s E c R _ F true HP) as [P1 V1]; [rewrite len_cons; lia|].
-      eexists. split; [reflexivity|]. cbn [rev app].
       split; [rewrite pth_addch, pth_tick, P1; now rewrite addchar_keep by lia|].
       split; [now rewrite valid_addch, valid_tick|now autorewrite with pst].
-    - inversion FA as [|? ? Hc FA']; subst. inversion FA' as [|? ? Hx _]; subst. apply onc_spec in Hx as Hx'.
-      cbn [app]. rewrite option_step_name by (assumption || lia).
-      rewrite !len_cons in HL. pose proof (len_nonneg R). pose proof (len_nonneg w).
-      destruct (set_valid_path s E c R _ F true HP) as [P1 V1]; [rewrite len_cons; lia|].
-      destruct (IH x (addch (tick (set_valid s) x) x) d l E (c :: R) F FA' PD) as (s' & E1 & P2 & V2 & C2).
-      + rewrite pth_addch, pth_tick, P1. apply addchar_keep. lia.
-      + rewrite !len_cons. lia.
-      + exists s'. split; [exact E1|]. cbn [rev]. rewrite <- !app_assoc. cbn [app].
-        split; [exact P2|]. split; [exact V2|]. rewrite C2. now autorewrite with pst.
   Qed.
 
-  Lemma opt_scan_blanks : forall w c s d l E R F,
-    Forall (fun x => hspace x = true) (c :: w) -> 0 < d < 256 ->
-    pth s = mkPath E (c :: R) (len (c :: R)) F true true ->
+  Lemma vlr_ge P c R : isspace c = false -> len (c :: R) <= vlr (P ++ c :: R).
+  Proof.
+    intros SP. induction P as [|p P IH]; cbn [app vlr]; [rewrite SP; lia|].
+    destruct (isspace p); [exact IH|]. unfold len in *. cbn [length]. rewrite app_length. cbn [length]. lia.
+  Qed.
+
+  (* name characters and blanks: appended, the valid length ends behind the last non-blank *)
+  Lemma opt_scan_v : forall w c s d l E R F,
+    Forall (fun x => onb x = true) (c :: w) -> 0 < d < 256 ->
+    pth s = mkPath E (c :: R) (len (c :: R)) F true true -> valid s = vlr R ->
+    vlr (rev w ++ c :: R) < VALID_MOD ->
     exists s', option_loop f take c (w ++ d :: l) s = option_loop f take d l s' /\
                pth s' = mkPath E (d :: rev w ++ c :: R) (len (d :: rev w ++ c :: R)) F true true /\
-               valid s' = valid s /\ pcurr s' = pcurr s.
+               valid s' = vlr (rev w ++ c :: R) /\ pcurr s' = pcurr s.
   Proof.
-    induction w as [|x w IH]; intros c s d l E R F FA PD HP.
-    - inversion FA as [|? ? Hc _]; subst. cbn [app]. rewrite option_step_blank by (assumption || lia).
-      eexists. split; [reflexivity|]. cbn [rev app].
-      split; [rewrite pth_addch, pth_tick, HP; now rewrite addchar_keep by lia|].
-      split; now autorewrite with pst.
-    - inversion FA as [|? ? Hc FA']; subst. inversion FA' as [|? ? Hx _]; subst. apply hspace_spec in Hx as Hx'.
-      cbn [app]. rewrite option_step_blank by (assumption || lia).
-      destruct (IH x (addch (tick s x) x) d l E (c :: R) F FA' PD) as (s' & E1 & P2 & V2 & C2).
-      + rewrite pth_addch, pth_tick, HP. apply addchar_keep. lia.
-      + exists s'. split; [exact E1|]. cbn [rev]. rewrite <- !app_assoc. cbn [app].
-        split; [exact P2|]. autorewrite with pst in V2, C2. auto.
+    induction w as [|x w IH]; intros c s d l E R F FA PD HP HV HL.
+    - pose proof (Forall_inv FA) as Hc. cbn beta in Hc. apply onb_spec in Hc as Hc'.
+      cbn [app]. rewrite option_step by (assumption || lia).
+      destruct (opt_state c d s E R F) as (P1 & V1 & C1); [lia|lia|exact HP|exact HV| |].
+      { intros SP. pose proof (vlr_ge [] c R SP). cbn [rev app] in *. lia. }
+      eexists. split; [reflexivity|]. cbn [rev app]. auto.
+    - pose proof (Forall_inv FA) as Hc. cbn beta in Hc. apply onb_spec in Hc as Hc'.
+      pose proof (Forall_inv_tail FA) as FA'. pose proof (Forall_inv FA') as Hx. cbn beta in Hx. apply onb_spec in Hx as Hx'.
+      cbn [app]. rewrite option_step by (assumption || lia).
+      cbn [rev] in HL. rewrite <- app_assoc in HL. cbn [app] in HL.
+      destruct (opt_state c x s E R F) as (P1 & V1 & C1); [lia|lia|exact HP|exact HV| |].
+      { intros SP. pose proof (vlr_ge (rev w ++ [x]) c R SP) as G. rewrite <- app_assoc in G. cbn [app] in G. lia. }
+      destruct (IH x _ d l E (c :: R) F FA' PD P1 V1 HL) as (s' & E1 & P2 & V2 & C2).
+      exists s'. split; [exact E1|]. cbn [rev]. rewrite <- !app_assoc. cbn [app].
+      split; [exact P2|]. split; [exact V2|]. now rewrite C2.
   Qed.
 
   (* ---------------------------------------------------------------- name finished, value follows *)
@@ -160,68 +165,92 @@ Section Ext.
       zb. repeat split; auto.
   Qed.
 
-  (* well-formed names of the styles without white space in names *)
-  Record wfo (n : list Z) : Prop := mkWfo {
-    wo_chars : Forall (fun c => onc c = true) n;
+  (* well-formed option names of the enclosed / separated family: white space may stand inside;
+     for the code variant [raw] = false not directly behind the first character *)
+  Record wfo (raw : bool) (n : list Z) : Prop := mkWfo {
+    wo_chars : Forall (fun c => onb c = true) n;
     wo_ne : n <> [];
+    wo_first : isspace (hd 0 n) = false;
+    wo_last : isspace (last n 0) = false;
+    wo_second : raw = false -> isspace (nth 1 n 0) = false;
     wo_check : ncheck_go n true take = 0;
     wo_len : len n <= IDENT_MAX }.
 
+  (* section names of the enclosed family: no white space *)
+  Record wfe (n : list Z) : Prop := mkWfe {
+    we_chars : Forall (fun c => onc c = true) n;
+    we_ne : n <> [];
+    we_check : ncheck_go n true take = 0;
+    we_len : len n <= IDENT_MAX }.
+
+  Lemma onb_nosep n : Forall (fun c => onb c = true) n -> existsb (Z.eqb SEP) n = false.
+  Proof.
+    induction 1 as [|c n Hc _ IH]; [reflexivity|]. cbn [existsb]. rewrite IH, orb_false_r.
+    apply onb_spec in Hc. unfold SEP. apply Z.eqb_neq. lia.
+  Qed.
   Lemma onc_nosep n : Forall (fun c => onc c = true) n -> existsb (Z.eqb SEP) n = false.
   Proof.
     induction 1 as [|c n Hc _ IH]; [reflexivity|]. cbn [existsb]. rewrite IH, orb_false_r.
     apply onc_spec in Hc. unfold SEP. apply Z.eqb_neq. lia.
   Qed.
 
-  (* option_loop from the second character of the name (or the assign character) on *)
-  Lemma option_name_rest d n0 n' v rest s E F c1 :
-    wfo (n0 :: n') -> wf_value v = true ->
-    (* c1 is the current character: already stored behind n0 *)
+  (* collected name bytes with blanks behind: the valid length is the name *)
+  Lemma vlr_name B n : Forall (fun c => hspace c = true) B -> n <> [] -> isspace (last n 0) = false ->
+    vlr (rev B ++ rev n) = len n.
+  Proof.
+    intros FB NE NL. rewrite vlr_skip_blanks.
+    - rewrite vlr_last; [unfold len; now rewrite rev_length| |now rewrite hd_rev_last].
+      intros X. apply (f_equal (@length Z)) in X. rewrite rev_length in X. destruct n; [now destruct NE|discriminate].
+    - apply Forall_rev. eapply Forall_impl; [|exact FB]. intros c H. apply hspace_spec in H. apply isspace_spec. lia.
+  Qed.
+
+  (* option_loop with the second character c1 of the line current (stored behind n0): the rest of
+     the name, blanks, the assign character, the value *)
+  Lemma option_cont raw d n0 n' B v rest s E F c1 l :
+    wfo raw (n0 :: n') -> wf_value v = true -> Forall (fun c => hspace c = true) B ->
     pth s = mkPath E [c1; n0] 2 F true true -> valid s = 1 ->
-    forall tl0, tl0 = hws (d_mid2 d) ++ print_value d v ++ hws (d_trail d) ++ tail_comment d ++ 10 :: rest ->
-    (n' = [] /\ c1 = 61 \/ exists n'', n' = c1 :: n'') ->
-    forall l, (match n' with [] => l = tl0 | _ :: n'' => l = n'' ++ hws (d_mid1 d) ++ 61 :: tl0 end) ->
+    c1 :: l = (n' ++ B) ++ 61 :: hws (d_mid2 d) ++ print_value d v ++ hws (d_trail d) ++ tail_comment d ++ 10 :: rest ->
     exists s',
       option_loop f take c1 l s = ((match v with [] => 3 | _ => 7 end), rest, s') /\
       pelems (pth s') = E ++ [n0 :: n'] /\ pcurr s' = pcurr s /\ valid s' = len v /\
       (v <> [] -> post_read s' (len v) = Some v).
   Proof.
-    intros [NC NE NK NLEN] WV HP HV tl0 ET CS l EL.
-    pose proof (onc_nosep _ NC) as NS.
-    destruct CS as [[-> ->]|[n'' ->]].
+    intros [NC NE NF NL _ NK NLEN] WV FB HP HV EL.
+    set (tl0 := hws (d_mid2 d) ++ print_value d v ++ hws (d_trail d) ++ tail_comment d ++ 10 :: rest) in *.
+    pose proof (onb_nosep _ NC) as NS. cbn [hd] in NF.
+    destruct (n' ++ B) as [|x X'] eqn:EX.
     - (* one character name, the assign character is current *)
-      subst l. rewrite option_step_assign.
+      apply app_eq_nil in EX. destruct EX as [-> ->]. cbn [app] in EL. injection EL as -> ->.
+      rewrite option_step_assign.
       destruct (option_assign_value MissingBuffer d [n0] v rest s E [61] F true) as (s' & E1 & Q); auto.
-      subst tl0. exists s'. split; [exact E1|exact Q].
-    - subst l. pose proof (Forall_inv NC) as H0. pose proof (Forall_inv_tail NC) as NC'. cbn beta in H0.
-      rewrite !len_cons in NLEN. unfold IDENT_MAX in NLEN. pose proof (len_nonneg n'').
-      assert (HP' : pth s = mkPath E (c1 :: [n0]) (len (c1 :: [n0])) F true true) by exact HP.
-      destruct (hws (d_mid1 d)) as [|b0 bs] eqn:HB.
-      + cbn [app].
-        destruct (opt_scan n'' c1 s 61 tl0 E [n0] F NC') as (s2 & E2 & P2 & V2 & C2); [lia|exact HP'| |].
-        { rewrite !len_cons, len_nil. unfold VALID_MOD. lia. }
-        rewrite E2, option_step_assign.
-        destruct (option_assign_value MissingBuffer d (n0 :: c1 :: n'') v rest s2 E [61] F true) as (s' & E1 & Q1 & Q2 & Q3); auto.
-        * rewrite P2. cbn [rev app]. rewrite <- !app_assoc. reflexivity.
-        * rewrite V2. unfold len. rewrite app_length, rev_length. cbn [length]. lia.
-        * subst tl0. exists s'. split; [exact E1|]. split; [exact Q1|]. split; [congruence|exact Q3].
-      + assert (FB : Forall (fun c => hspace c = true) (b0 :: bs)) by (rewrite <- HB; apply hws_hspaces).
-        pose proof (Forall_inv FB) as Hb. cbn beta in Hb. apply hspace_spec in Hb as Hb'.
-        cbn [app].
-        destruct (opt_scan n'' c1 s b0 (bs ++ 61 :: tl0) E [n0] F NC') as (s2 & E2 & P2 & V2 & C2); [lia|exact HP'| |].
-        { rewrite !len_cons, len_nil. unfold VALID_MOD. lia. }
-        rewrite E2.
-        destruct (opt_scan_blanks bs b0 s2 61 tl0 E (rev n'' ++ [c1; n0]) F FB) as (s3 & E3 & P3 & V3 & C3); [lia|exact P2|].
-        rewrite E3, option_step_assign.
-        destruct (option_assign_value MissingBuffer d (n0 :: c1 :: n'') v rest s3 E (61 :: rev bs ++ [b0]) F true) as (s' & E1 & Q1 & Q2 & Q3); auto.
-        * rewrite P3. cbn [rev app]. rewrite <- !app_assoc. reflexivity.
-        * rewrite V3, V2. unfold len. rewrite app_length, rev_length. cbn [length]. lia.
-        * subst tl0. exists s'. split; [exact E1|]. split; [exact Q1|]. split; [congruence|exact Q3].
+      exists s'. split; [exact E1|exact Q].
+    - cbn [app] in EL. injection EL as -> ->.
+      assert (FX : Forall (fun c => onb c = true) (x :: X')).
+      { rewrite <- EX. apply Forall_app. split; [exact (Forall_inv_tail NC)|].
+        eapply Forall_impl; [|exact FB]. intros c. apply hspace_onb. }
+      rewrite len_cons in NLEN. unfold IDENT_MAX in NLEN. pose proof (len_nonneg n').
+      assert (HP' : pth s = mkPath E (x :: [n0]) (len (x :: [n0])) F true true) by exact HP.
+      assert (HV' : valid s = vlr [n0]) by (cbn [vlr]; rewrite NF; exact HV).
+      assert (RV : rev X' ++ [x; n0] = rev B ++ rev (n0 :: n')).
+      { change [x; n0] with ([x] ++ [n0]). rewrite app_assoc. change (rev X' ++ [x]) with (rev (x :: X')).
+        rewrite <- EX, rev_app_distr. cbn [rev]. now rewrite app_assoc. }
+      assert (VN : vlr (rev X' ++ [x; n0]) = len (n0 :: n')).
+      { rewrite RV. apply vlr_name; [exact FB|discriminate|exact NL]. }
+      destruct (opt_scan_v X' x s 61 tl0 E [n0] F FX) as (s2 & E2 & P2 & V2 & C2); [lia|exact HP'|exact HV'| |].
+      { rewrite VN, len_cons. unfold VALID_MOD. lia. }
+      rewrite E2, option_step_assign.
+      destruct (option_assign_value MissingBuffer d (n0 :: n') v rest s2 E (61 :: rev B) F true) as (s' & E1 & Q1 & Q2 & Q3); auto.
+      + rewrite P2, RV. cbn [app]. reflexivity.
+      + rewrite V2. exact VN.
+      + exists s'. split; [exact E1|]. split; [exact Q1|]. split; [congruence|exact Q3].
   Qed.
 
-  (* mpt_parse_option entered with the first name character stored and valid *)
+  Lemma getchar_pos c l s : 0 < c -> getchar (c :: l) s = (c, l, addch (tick s c) c).
+  Proof. intros P. cbn [getchar]. zb. reflexivity. Qed.
+
+  (* mpt_parse_option entered with the first name character stored and valid, both code variants *)
   Lemma option_core (a : allow) d n0 n' v rest s0 E F :
-    take = aopt a -> wfo (n0 :: n') -> wf_value v = true ->
+    take = aopt a -> wfo (araw a) (n0 :: n') -> wf_value v = true ->
     pth s0 = mkPath E [n0] 1 F true true -> valid s0 = 1 ->
     exists s',
       parse_option f a (n' ++ hws (d_mid1 d) ++ 61 ::
@@ -233,31 +262,53 @@ Section Ext.
     intros ET WN WV HP HV.
     set (tl0 := hws (d_mid2 d) ++ print_value d v ++ hws (d_trail d) ++ tail_comment d ++ 10 :: rest).
     assert (OS : ostart f = 0) by (destruct DF as (A & _); exact A).
-    unfold parse_option, nextvis. rewrite nextvis_go_ext.
-    destruct n' as [|n1 n''].
-    - cbn [app]. destruct (nv_ws fd _ (hws_spaces (d_mid1 d)) (61 :: tl0) s0) as (s1 & (S1 & S2 & S3) & E1).
-      rewrite E1, nv_vis by (reflexivity || lia). zb. cbn [negb andb].
-      rewrite <- ET.
-      assert (P1 : pth (with_curr (addch (tick s1 61) 61) (Z.lor POption PName)) = mkPath E [61; n0] 2 F true true).
-      { rewrite pth_with_curr, pth_addch, pth_tick, S1, HP. reflexivity. }
-      assert (V1 : valid (with_curr (addch (tick s1 61) 61) (Z.lor POption PName)) = 1).
-      { rewrite valid_with_curr, valid_addch, valid_tick, S2. exact HV. }
-      destruct (option_name_rest d n0 [] v rest _ E F 61 WN WV P1 V1 tl0 eq_refl (or_introl (conj eq_refl eq_refl)) tl0 eq_refl)
-        as (s' & E2 & Q1 & Q2 & Q3 & Q4).
-      exists s'. rewrite pcurr_with_curr in Q2. auto.
-    - cbn [app].
-      pose proof (Forall_inv (Forall_inv_tail (wo_chars _ WN))) as H1. cbn beta in H1. apply onc_spec in H1 as H1'.
-      rewrite nv_vis; [|lia|tauto|lia]. zb. cbn [negb andb].
-      rewrite <- ET.
-      assert (P1 : pth (with_curr (addch (tick s0 n1) n1) (Z.lor POption PName)) = mkPath E [n1; n0] 2 F true true).
+    pose proof (hws_hspaces (d_mid1 d)) as FB.
+    unfold parse_option. rewrite HV, OS. change (negb (1 =? 0)) with true. change (0 =? 0) with true.
+    rewrite !andb_true_r. cbn [negb andb].
+    destruct (araw a) eqn:RAW.
+    - (* the next character as it comes *)
+      rewrite app_assoc.
+      destruct ((n' ++ hws (d_mid1 d)) ++ 61 :: tl0) as [|c1 l] eqn:EL; [now destruct (n' ++ hws (d_mid1 d))|].
+      assert (B1 : 0 < c1 < 256).
+      { destruct (n' ++ hws (d_mid1 d)) as [|y Y] eqn:EY; cbn [app] in EL; injection EL as <- _; [lia|].
+        assert (FY : Forall (fun c => onb c = true) (y :: Y)).
+        { rewrite <- EY. apply Forall_app. split; [exact (Forall_inv_tail (wo_chars _ _ WN))|].
+          eapply Forall_impl; [|exact FB]. intros c. apply hspace_onb. }
+        pose proof (Forall_inv FY) as Hy. cbn beta in Hy. apply onb_spec in Hy. lia. }
+      rewrite getchar_pos by lia. zb. rewrite <- ET.
+      assert (P1 : pth (with_curr (addch (tick s0 c1) c1) (Z.lor POption PName)) = mkPath E [c1; n0] 2 F true true).
       { rewrite pth_with_curr, pth_addch, pth_tick, HP.
         cbn [path_addchar pbuf rpost pkeep negb pelems plen pfirst]. now rewrite byte_of_small by lia. }
-      assert (V1 : valid (with_curr (addch (tick s0 n1) n1) (Z.lor POption PName)) = 1).
+      assert (V1 : valid (with_curr (addch (tick s0 c1) c1) (Z.lor POption PName)) = 1).
       { now rewrite valid_with_curr, valid_addch, valid_tick. }
-      destruct (option_name_rest d n0 (n1 :: n'') v rest _ E F n1 WN WV P1 V1 tl0 eq_refl
-                  (or_intror (ex_intro _ n'' eq_refl)) (n'' ++ hws (d_mid1 d) ++ 61 :: tl0) eq_refl)
+      destruct (option_cont true d n0 n' (hws (d_mid1 d)) v rest _ E F c1 l WN WV FB P1 V1 (eq_sym EL))
         as (s' & E2 & Q1 & Q2 & Q3 & Q4).
       exists s'. rewrite pcurr_with_curr in Q2. auto.
+    - (* the next visible character *)
+      unfold nextvis. rewrite nextvis_go_ext.
+      destruct n' as [|n1 n''].
+      + cbn [app]. destruct (nv_ws fd _ (hws_spaces (d_mid1 d)) (61 :: tl0) s0) as (s1 & (S1 & S2 & S3) & E1).
+        rewrite E1, nv_vis by (reflexivity || lia). zb. rewrite <- ET.
+        assert (P1 : pth (with_curr (addch (tick s1 61) 61) (Z.lor POption PName)) = mkPath E [61; n0] 2 F true true).
+        { rewrite pth_with_curr, pth_addch, pth_tick, S1, HP. reflexivity. }
+        assert (V1 : valid (with_curr (addch (tick s1 61) 61) (Z.lor POption PName)) = 1).
+        { rewrite valid_with_curr, valid_addch, valid_tick, S2. exact HV. }
+        destruct (option_cont false d n0 [] [] v rest _ E F 61 tl0 WN WV (Forall_nil _) P1 V1 eq_refl)
+          as (s' & E2 & Q1 & Q2 & Q3 & Q4).
+        exists s'. rewrite pcurr_with_curr in Q2. auto.
+      + cbn [app].
+        pose proof (Forall_inv (Forall_inv_tail (wo_chars _ _ WN))) as H1. cbn beta in H1. apply onb_spec in H1 as H1'.
+        pose proof (wo_second _ _ WN eq_refl) as S2. cbn [nth] in S2.
+        rewrite nv_vis; [|lia|exact S2|lia]. zb. rewrite <- ET.
+        assert (P1 : pth (with_curr (addch (tick s0 n1) n1) (Z.lor POption PName)) = mkPath E [n1; n0] 2 F true true).
+        { rewrite pth_with_curr, pth_addch, pth_tick, HP.
+          cbn [path_addchar pbuf rpost pkeep negb pelems plen pfirst]. now rewrite byte_of_small by lia. }
+        assert (V1 : valid (with_curr (addch (tick s0 n1) n1) (Z.lor POption PName)) = 1).
+        { now rewrite valid_with_curr, valid_addch, valid_tick. }
+        destruct (option_cont false d n0 (n1 :: n'') (hws (d_mid1 d)) v rest _ E F n1
+                    (n'' ++ hws (d_mid1 d) ++ 61 :: tl0) WN WV FB P1 V1) as (s' & E2 & Q1 & Q2 & Q3 & Q4).
+        { cbn [app]. now rewrite <- app_assoc. }
+        exists s'. rewrite pcurr_with_curr in Q2. auto.
   Qed.
 
   (* the first name character, stored from the blank state, then valid *)
@@ -286,48 +337,86 @@ Proof.
   eexists. split; [reflexivity|]. autorewrite with pst. auto.
 Qed.
 
-Lemma name_end_spec d : exists w0, name_end d = [w0] /\ isspace w0 = true /\ 0 < w0 < 256.
+(* the two ways a section name of the enclosed style ends *)
+Definition name_stop (t : Z) (tl : list Z) : Prop :=
+  0 < t < 256 /\ (isspace t = true /\ tl = [] \/ t = 35 /\ exists c, tl = ctext c ++ [10]).
+Lemma name_end_spec d : exists w0 tl, name_end d = w0 :: tl /\ name_stop w0 tl.
 Proof.
-  unfold name_end. pose proof (ws_spaces (d_mid1 d)) as FW. destruct (ws (d_mid1 d)) as [|c r].
-  - exists 10. repeat split; reflexivity || lia.
-  - pose proof (Forall_inv FW) as Hc. cbn beta in Hc. exists c. split; [reflexivity|]. split; [exact Hc|].
-    apply isspace_spec in Hc. lia.
+  unfold name_end, name_stop. destruct (d_tcomment d) as [c|].
+  - exists 35, (ctext c ++ [10]). split; [reflexivity|]. split; [lia|]. right. eauto.
+  - pose proof (ws_spaces (d_mid1 d)) as FW. destruct (ws (d_mid1 d)) as [|c r].
+    + exists 10, []. split; [reflexivity|]. split; [lia|]. left. split; reflexivity.
+    + pose proof (Forall_inv FW) as Hc. cbn beta in Hc. exists c, []. split; [reflexivity|].
+      apply isspace_spec in Hc as Hc'. split; [lia|]. left. auto.
 Qed.
 
-Lemma wf_name_wfo st take n : st = StEnc \/ st = StSep \/ st = StEncD -> wf_name st take n = true ->
-  wfo take n /\ Forall (fun c => c <> 37 \/ st <> StEnc) n /\ Forall (fun c => (c <> 91 /\ c <> 93) \/ st = StEnc) n.
+Lemma wf_name_inv st r raw take n : wf_name st r raw take n = true ->
+  chars_ok st r n = true /\ n <> [] /\ isspace (hd 0 n) = false /\ isspace (last n 0) = false /\
+  ncheck_go n true take = 0 /\ len n <= IDENT_MAX /\ blanks_ok st r raw n = true.
 Proof.
-  intros ST. unfold wf_name. destruct n as [|c0 n']; [discriminate|].
-  rewrite !andb_true_iff, !negb_true_iff, Z.eqb_eq, Z.leb_le. intros ((((A & B) & C) & D) & E).
-  assert (FA : Forall (fun c => name_char st c = true) (c0 :: n')) by (apply Forall_forall; now apply forallb_forall).
-  split; [constructor; auto; try discriminate|].
-  - eapply Forall_impl; [|exact FA]. intros c H. apply onc_spec. unfold name_char, byteb in H.
-    destruct ST as [->|[->| ->]]; rewrite !andb_true_iff, !negb_true_iff, !Z.leb_le, !Z.eqb_neq in H;
-      repeat split; try lia; tauto.
-  - split; eapply Forall_impl; try exact FA; intros c H; unfold name_char in H;
-      destruct ST as [->|[->| ->]]; rewrite !andb_true_iff, !negb_true_iff, !Z.eqb_neq in H;
-      try (left; tauto); try (right; discriminate); try (right; reflexivity); try (left; lia).
+  unfold wf_name. destruct n as [|c0 n']; [discriminate|].
+  rewrite !andb_true_iff, !negb_true_iff, Z.eqb_eq, Z.leb_le. intros (((((A & B) & C) & D) & E) & G).
+  split; [exact A|]. split; [discriminate|]. auto.
+Qed.
+
+Lemma name_char_onb st c : name_char st c = true -> onb c = true.
+Proof.
+  unfold name_char, byteb. rewrite !andb_true_iff, !negb_true_iff, !Z.leb_le, !Z.eqb_neq.
+  intros H. apply onb_spec. lia.
+Qed.
+
+(* option names of the three styles: the characters, and the line does not begin with the section start character *)
+Lemma wf_name_wfo st raw take n : st = StEnc \/ st = StSep \/ st = StEncD -> wf_name st ROpt raw take n = true ->
+  wfo take raw n /\ hd 0 n <> (match st with StEnc => 37 | _ => 91 end).
+Proof.
+  intros ST W. destruct (wf_name_inv _ _ _ _ _ W) as (CO & NE & HF & HL & NK & NL & BO).
+  assert (FA : forallb (name_char st) n = true /\ hd 0 n <> (match st with StEnc => 37 | _ => 91 end)).
+  { destruct ST as [->|[->| ->]]; cbn [chars_ok] in CO; apply andb_true_iff in CO; destruct CO as [A B];
+      apply negb_true_iff, Z.eqb_neq in B; auto. }
+  destruct FA as [FA H0]. split; [|exact H0]. constructor; auto.
+  - apply Forall_forall. intros c IN. apply (name_char_onb st). rewrite forallb_forall in FA. now apply FA.
+  - intros ->. destruct ST as [->|[->| ->]]; cbn [blanks_ok orb] in BO; now apply negb_true_iff in BO.
+Qed.
+
+(* section names of the enclosed family *)
+Lemma wf_name_wfe st raw take n : st = StEnc \/ st = StEncD -> wf_name st RSec raw take n = true -> wfe take n.
+Proof.
+  intros ST W. destruct (wf_name_inv _ _ _ _ _ W) as (CO & NE & HF & HL & NK & NL & BO).
+  constructor; auto.
+  assert (NS : forallb (fun c => negb (isspace c)) n = true) by (destruct ST as [->| ->]; exact BO).
+  assert (FA : forallb (sname_char st) n = true) by (destruct ST as [->| ->]; exact CO).
+  rewrite forallb_forall in NS, FA. apply Forall_forall. intros c IN.
+  specialize (NS c IN). specialize (FA c IN). apply negb_true_iff in NS. apply onc_spec.
+  unfold sname_char, byteb in FA. rewrite !andb_true_iff, !negb_true_iff, !Z.leb_le, !Z.eqb_neq in FA.
+  repeat split; try lia; exact NS.
 Qed.
 
 (* ---------------------------------------------------------------- enclosed style *)
-Lemma enc_name_loop : forall w s d l E R F,
-  Forall (fun c => onc c = true) w -> isspace d = true -> 0 < d < 256 -> R <> [] ->
+Lemma enc_name_loop : forall w s d tl l E R F,
+  Forall (fun c => onc c = true) w -> name_stop d tl -> R <> [] ->
   pth s = mkPath E R (len R) F true true -> valid s = len R -> len R + len w < VALID_MOD ->
-  exists s', enc_loop fe (w ++ d :: l) s = (true, l, s') /\
+  exists s', enc_loop fe (w ++ d :: tl ++ l) s = (true, l, s') /\
              pth s' = mkPath E (d :: rev w ++ R) (len (d :: rev w ++ R)) F true true /\
              valid s' = len (rev w ++ R) /\ pcurr s' = pcurr s.
 Proof.
-  induction w as [|c w IH]; intros s d l E R F FA SD BD NR HP HV HL.
-  - cbn [app enc_loop]. zb. rewrite SD. eexists. split; [reflexivity|]. cbn [rev app].
-    split; [rewrite pth_addch, pth_tick, HP; now rewrite addchar_keep by lia|].
-    split; now autorewrite with pst.
-  - inversion FA as [|? ? Hc FA']; subst. apply onc_spec in Hc as Hc'. destruct Hc' as (B & SP & _ & N35 & _).
+  induction w as [|c w IH]; intros s d tl l E R F FA [BD ST] NR HP HV HL.
+  - cbn [app enc_loop]. zb.
+    assert (PA : pth (addch (tick s d) d) = mkPath E (d :: R) (len (d :: R)) F true true).
+    { rewrite pth_addch, pth_tick, HP. apply addchar_keep. lia. }
+    destruct ST as [[SD ->]|[-> [c ->]]].
+    + rewrite SD. eexists. split; [reflexivity|]. cbn [rev app]. split; [exact PA|]. split; now autorewrite with pst.
+    + change (isspace 35) with false. unfold iscomment. cbn [fe com0 com1 com2 com3]. cbn [negb orb andb Z.eqb].
+      rewrite <- app_assoc. cbn [app].
+      destruct (endline_text (ctext c) (ctext_ok c) l (addch (tick s 35) 35)) as (s' & (S1 & S2 & S3) & E1).
+      rewrite E1. exists s'. split; [reflexivity|]. cbn [rev app]. rewrite S1, S2, S3.
+      split; [exact PA|]. split; now autorewrite with pst.
+  - inversion FA as [|? ? Hc FA']; subst. apply onc_spec in Hc as Hc'. destruct Hc' as (B & SP & N35 & _).
     cbn [app enc_loop]. zb. rewrite SP. unfold iscomment. cbn [fe com0 com1 com2 com3]. zb. cbn [negb orb andb].
     rewrite len_cons in HL. pose proof (len_nonneg w). pose proof (len_nonneg R).
     assert (PA : pth (addch (tick s c) c) = mkPath E (c :: R) (len (c :: R)) F true true).
     { rewrite pth_addch, pth_tick, HP. apply addchar_keep. lia. }
     destruct (set_valid_path _ _ _ _ _ _ _ PA) as [P1 V1]; [rewrite len_cons; lia|].
-    destruct (IH (set_valid (addch (tick s c) c)) d l E (c :: R) F FA' SD BD) as (s' & E1 & P2 & V2 & C2);
+    destruct (IH (set_valid (addch (tick s c) c)) d tl l E (c :: R) F FA' (conj BD ST)) as (s' & E1 & P2 & V2 & C2);
       [discriminate|exact P1|exact V1|rewrite len_cons; lia|].
     exists s'. split; [exact E1|]. cbn [rev]. rewrite <- !app_assoc. cbn [app].
     split; [exact P2|]. split; [exact V2|]. rewrite C2. now autorewrite with pst.
@@ -338,14 +427,14 @@ Section Enc.
 
   (* the section name behind the start character *)
   Lemma enc_section_name d n rest s E :
-    wfo (asect a) n -> ready s E ->
+    wfe (asect a) n -> ready s E ->
     exists s', enc_section fe a (n ++ name_end d ++ rest) s = (PSection, rest, s') /\
                pelems (pth s') = E ++ [n] /\ pbuf (pth s') = true /\ pcurr s' = Z.lor PSection PName /\ valid s' = 0.
   Proof.
     intros [NC NE NK NLEN] RD. destruct n as [|n0 n']; [now destruct NE|].
     pose proof (Forall_inv NC) as H0. cbn beta in H0. apply onc_spec in H0 as H0'.
     pose proof (Forall_inv_tail NC) as NC'.
-    destruct (name_end_spec d) as (w0 & -> & SW & BW).
+    destruct (name_end_spec d) as (w0 & tl & -> & ST).
     unfold enc_section, nextvis. rewrite (nextvis_go_ext fe dfmt_fe). cbn [app].
     rewrite nv_vis; [|lia|tauto|lia]. zb.
     set (s1 := with_curr (tick (with_curr s PSection) n0) (Z.lor PSection PName)).
@@ -353,7 +442,7 @@ Section Enc.
     { destruct RD as (R1 & R2 & R3 & R4 & R5). subst s1. unfold ready. autorewrite with pst. auto. }
     destruct (first_char_state s1 E n0 RD1) as [P2 V2]; [lia|].
     rewrite len_cons in NLEN. unfold IDENT_MAX in NLEN. pose proof (len_nonneg n').
-    destruct (enc_name_loop n' (set_valid (addch s1 n0)) w0 rest E [n0] (pfirst (pth s1)) NC' SW BW) as (s3 & E3 & P3 & V3 & C3);
+    destruct (enc_name_loop n' (set_valid (addch s1 n0)) w0 tl rest E [n0] (pfirst (pth s1)) NC' ST) as (s3 & E3 & P3 & V3 & C3);
       [discriminate|exact P2|exact V2|rewrite len_cons, len_nil; unfold VALID_MOD; lia|].
     rewrite E3.
     assert (P3' : pth s3 = mkPath E ([w0] ++ rev (n0 :: n')) (len ([w0] ++ rev (n0 :: n'))) (pfirst (pth s1)) true true) by exact P3.
@@ -366,16 +455,17 @@ Section Enc.
   Qed.
 
   Lemma enc_option d n v rest s E prev :
-    prev <> PSectEnd -> wfo (aopt a) n -> Forall (fun c => c <> 37) n -> wf_value v = true -> ready s E ->
+    prev <> PSectEnd -> wfo (aopt a) (araw a) n -> hd 0 n <> 37 -> wf_value v = true -> ready s E ->
     exists s',
       format_enc fe a prev (print_opt d n v ++ rest) s = ((match v with [] => 3 | _ => 7 end), rest, s') /\
       pelems (pth s') = E ++ [n] /\ pcurr s' = 11 /\ valid s' = len v /\
       (v <> [] -> post_read s' (len v) = Some v).
   Proof.
     intros PV WN N37 WV RD. unfold print_opt. rewrite <- !app_assoc.
-    destruct n as [|n0 n']; [now destruct (wo_ne _ _ WN)|].
-    pose proof (Forall_inv (wo_chars _ _ WN)) as H0. cbn beta in H0. apply onc_spec in H0 as H0'.
-    pose proof (Forall_inv N37) as H37. cbn beta in H37.
+    destruct n as [|n0 n']; [now destruct (wo_ne _ _ _ WN)|].
+    pose proof (Forall_inv (wo_chars _ _ _ WN)) as H0. cbn beta in H0. apply onb_spec in H0 as H0'.
+    pose proof (wo_first _ _ _ WN) as HS0. cbn [hd] in HS0.
+    pose proof N37 as H37. cbn [hd] in H37.
     unfold format_enc. change (sstart fe =? send fe) with true. cbv iota.
     apply Z.eqb_neq in PV. rewrite PV.
     unfold nextvis. rewrite (nextvis_go_ext fe dfmt_fe). cbn [app].
@@ -394,7 +484,7 @@ Section Enc.
 
   (* a section start character while no section is open: the section starts *)
   Lemma enc_open d n rest s prev :
-    prev <> PSectEnd -> wfo (asect a) n -> ready s [] ->
+    prev <> PSectEnd -> wfe (asect a) n -> ready s [] ->
     exists s', format_enc fe a prev (lead d ++ [37] ++ n ++ name_end d ++ rest) s = (PSection, rest, s') /\
                pelems (pth s') = [n] /\ pbuf (pth s') = true /\ pcurr s' = Z.lor PSection PName.
   Proof.
@@ -428,7 +518,7 @@ Section Enc.
   Qed.
 
   Lemma enc_reopen d n rest s :
-    wfo (asect a) n -> ready s [] ->
+    wfe (asect a) n -> ready s [] ->
     exists s', format_enc fe a PSectEnd (n ++ name_end d ++ rest) s = (PSection, rest, s') /\
                pelems (pth s') = [n] /\ pbuf (pth s') = true /\ pcurr s' = Z.lor PSection PName.
   Proof.
@@ -452,25 +542,28 @@ End Enc.
 Section Sep.
   Variable a : allow.
 
-  (* name characters of the separated style inside the brackets *)
-  Definition snc (c : Z) : bool := onc c && negb (c =? 93).
+  (* name characters of the separated style inside the brackets; white space other than the newline may stand
+     inside, the assign character is an ordinary one *)
+  Definition snc (c : Z) : bool :=
+    (0 <? c) && (c <? 256) && negb (c =? 10) && negb (c =? 35) && negb (c =? 46) && negb (c =? 93).
+  Lemma snc_spec c : snc c = true <-> (0 < c < 256 /\ c <> 10 /\ c <> 35 /\ c <> 46 /\ c <> 93).
+  Proof. unfold snc. rewrite !andb_true_iff, !negb_true_iff, !Z.ltb_lt, !Z.eqb_neq. tauto. Qed.
 
-  Lemma sep_step_name c a0 l s :
+  Lemma sep_step c a0 l s :
     snc c = true -> 0 < a0 ->
-    sep_loop fs a c (a0 :: l) s = sep_loop fs a a0 l (addch (tick (set_valid s) a0) a0).
+    sep_loop fs a c (a0 :: l) s = sep_loop fs a a0 l (addch (tick (if isspace c then s else set_valid s) a0) a0).
   Proof.
-    intros Hc P. unfold snc in Hc. apply andb_true_iff in Hc. destruct Hc as [H1 H2].
-    apply onc_spec in H1. destruct H1 as (B & SP & _ & N35 & _). apply negb_true_iff, Z.eqb_neq in H2.
+    intros Hc P. apply snc_spec in Hc. destruct Hc as (B & N10 & N35 & _ & N93).
     rewrite sep_loop_eq. unfold sep_body. change (send fs) with 93.
-    unfold iscomment. cbn [fs com0 com1 com2 com3]. zb. cbn [negb orb andb]. rewrite SP. cbn [negb]. zb. reflexivity.
+    unfold iscomment. cbn [fs com0 com1 com2 com3]. zb. cbn [negb orb andb].
+    destruct (isspace c); cbn [negb]; zb; reflexivity.
   Qed.
   Lemma sep_step_blank c a0 l s :
     hspace c = true -> 0 < a0 ->
     sep_loop fs a c (a0 :: l) s = sep_loop fs a a0 l (addch (tick s a0) a0).
   Proof.
     intros Hc P. apply hspace_spec in Hc as Hc'. assert (SP : isspace c = true) by (apply isspace_spec; lia).
-    rewrite sep_loop_eq. unfold sep_body. change (send fs) with 93.
-    unfold iscomment. cbn [fs com0 com1 com2 com3]. zb. cbn [negb orb andb]. rewrite SP. cbn [negb]. zb. reflexivity.
+    rewrite sep_step; [now rewrite SP|apply snc_spec; lia|exact P].
   Qed.
   Lemma sep_step_end l s :
     sep_loop fs a 93 l s = section_add (asect a) (Z.lor PSection PName) l s.
@@ -498,58 +591,49 @@ Section Sep.
       + exists s'. autorewrite with pst in V2, C2. auto.
   Qed.
 
-  Lemma sep_scan : forall w c s d l E R F K,
-    Forall (fun x => snc x = true) (c :: w) -> 0 < d < 256 ->
-    pth s = mkPath E (c :: R) (len (c :: R)) F K true -> (K = true \/ R = []) -> len (c :: R) + len w < VALID_MOD ->
-    exists s', sep_loop fs a c (w ++ d :: l) s = sep_loop fs a d l s' /\
-               pth s' = mkPath E (d :: rev w ++ c :: R) (len (d :: rev w ++ c :: R)) F true true /\
-               valid s' = len (rev w ++ c :: R) /\ pcurr s' = pcurr s.
+  (* the state behind one step of the name loop *)
+  Lemma sep_state c a0 s E R F K :
+    0 < c < 256 -> 0 < a0 < 256 ->
+    pth s = mkPath E (c :: R) (len (c :: R)) F K true -> (K = true \/ isspace c = false) -> valid s = vlr R ->
+    (isspace c = false -> len (c :: R) < VALID_MOD) ->
+    let s1 := addch (tick (if isspace c then s else set_valid s) a0) a0 in
+    pth s1 = mkPath E (a0 :: c :: R) (len (a0 :: c :: R)) F true true /\ valid s1 = vlr (c :: R) /\ pcurr s1 = pcurr s.
   Proof.
-    induction w as [|x w IH]; intros c s d l E R F K FA PD HP HK HL.
-    - pose proof (Forall_inv FA) as Hc. cbn beta in Hc. cbn [app]. rewrite sep_step_name by (assumption || lia).
-      rewrite len_nil in HL. pose proof (len_nonneg R). rewrite len_cons in HL.
+    intros Bc Ba HP HK HV HL. cbn zeta. cbn [vlr]. pose proof (len_nonneg R). rewrite len_cons in HL.
+    destruct (isspace c) eqn:SP.
+    - destruct HK as [->|HK]; [|discriminate].
+      split; [rewrite pth_addch, pth_tick, HP; now rewrite addchar_keep by lia|]. split; now autorewrite with pst.
+    - specialize (HL eq_refl).
       destruct (set_valid_path s E c R _ F K HP) as [P1 V1]; [rewrite len_cons; lia|].
-      eexists. split; [reflexivity|]. cbn [rev app].
       split; [rewrite pth_addch, pth_tick, P1; now rewrite addchar_keep by lia|].
       split; [now rewrite valid_addch, valid_tick|now autorewrite with pst].
-    - pose proof (Forall_inv FA) as Hc. pose proof (Forall_inv_tail FA) as FA'. cbn beta in Hc.
-      pose proof (Forall_inv FA') as Hx. cbn beta in Hx.
-      assert (Bx : 0 < x < 256).
-      { unfold snc in Hx. apply andb_true_iff in Hx. destruct Hx as [H1 _]. apply onc_spec in H1. tauto. }
-      cbn [app]. rewrite sep_step_name by (assumption || lia).
-      rewrite !len_cons in HL. pose proof (len_nonneg R). pose proof (len_nonneg w).
-      destruct (set_valid_path s E c R _ F K HP) as [P1 V1]; [rewrite len_cons; lia|].
-      destruct (IH x (addch (tick (set_valid s) x) x) d l E (c :: R) F true FA' PD) as (s' & E1 & P2 & V2 & C2).
-      + rewrite pth_addch, pth_tick, P1. apply addchar_keep. lia.
-      + now left.
-      + rewrite !len_cons. lia.
-      + exists s'. split; [exact E1|]. cbn [rev]. rewrite <- !app_assoc. cbn [app].
-        split; [exact P2|]. split; [exact V2|]. rewrite C2. now autorewrite with pst.
   Qed.
 
-  Lemma sep_scan_blanks : forall w c s d l E R F,
-    Forall (fun x => hspace x = true) (c :: w) -> 0 < d < 256 ->
-    pth s = mkPath E (c :: R) (len (c :: R)) F true true ->
+  (* name characters and blanks inside the brackets: appended, the valid length ends behind the last non-blank *)
+  Lemma sep_scan_v : forall w c s d l E R F K,
+    Forall (fun x => snc x = true) (c :: w) -> 0 < d < 256 ->
+    pth s = mkPath E (c :: R) (len (c :: R)) F K true -> (K = true \/ isspace c = false) -> valid s = vlr R ->
+    vlr (rev w ++ c :: R) < VALID_MOD ->
     exists s', sep_loop fs a c (w ++ d :: l) s = sep_loop fs a d l s' /\
                pth s' = mkPath E (d :: rev w ++ c :: R) (len (d :: rev w ++ c :: R)) F true true /\
-               valid s' = valid s /\ pcurr s' = pcurr s.
+               valid s' = vlr (rev w ++ c :: R) /\ pcurr s' = pcurr s.
   Proof.
-    induction w as [|x w IH]; intros c s d l E R F FA PD HP.
-    - pose proof (Forall_inv FA) as Hc. cbn beta in Hc. cbn [app]. rewrite sep_step_blank by (assumption || lia).
-      eexists. split; [reflexivity|]. cbn [rev app].
-      split; [rewrite pth_addch, pth_tick, HP; now rewrite addchar_keep by lia|].
-      split; now autorewrite with pst.
-    - pose proof (Forall_inv FA) as Hc. pose proof (Forall_inv_tail FA) as FA'. cbn beta in Hc.
-      pose proof (Forall_inv FA') as Hx. cbn beta in Hx. apply hspace_spec in Hx as Hx'.
-      cbn [app]. rewrite sep_step_blank by (assumption || lia).
-      destruct (IH x (addch (tick s x) x) d l E (c :: R) F FA' PD) as (s' & E1 & P2 & V2 & C2).
-      + rewrite pth_addch, pth_tick, HP. apply addchar_keep. lia.
-      + exists s'. split; [exact E1|]. cbn [rev]. rewrite <- !app_assoc. cbn [app].
-        split; [exact P2|]. autorewrite with pst in V2, C2. auto.
+    induction w as [|x w IH]; intros c s d l E R F K FA PD HP HK HV HL.
+    - pose proof (Forall_inv FA) as Hc. cbn beta in Hc. apply snc_spec in Hc as Hc'.
+      cbn [app]. rewrite sep_step by (assumption || lia).
+      destruct (sep_state c d s E R F K) as (P1 & V1 & C1); [lia|lia|exact HP|exact HK|exact HV| |].
+      { intros SP. pose proof (vlr_ge [] c R SP). cbn [rev app] in *. lia. }
+      eexists. split; [reflexivity|]. cbn [rev app]. auto.
+    - pose proof (Forall_inv FA) as Hc. cbn beta in Hc. apply snc_spec in Hc as Hc'.
+      pose proof (Forall_inv_tail FA) as FA'. pose proof (Forall_inv FA') as Hx. cbn beta in Hx. apply snc_spec in Hx as Hx'.
+      cbn [app]. rewrite sep_step by (assumption || lia).
+      cbn [rev] in HL. rewrite <- app_assoc in HL. cbn [app] in HL.
+      destruct (sep_state c x s E R F K) as (P1 & V1 & C1); [lia|lia|exact HP|exact HK|exact HV| |].
+      { intros SP. pose proof (vlr_ge (rev w ++ [x]) c R SP) as G. rewrite <- app_assoc in G. cbn [app] in G. lia. }
+      destruct (IH x _ d l E (c :: R) F true FA' PD P1 (or_introl eq_refl) V1 HL) as (s' & E1 & P2 & V2 & C2).
+      exists s'. split; [exact E1|]. cbn [rev]. rewrite <- !app_assoc. cbn [app].
+      split; [exact P2|]. split; [exact V2|]. now rewrite C2.
   Qed.
-
-  Lemma getchar_pos c l s : 0 < c -> getchar (c :: l) s = (c, l, addch (tick s c) c).
-  Proof. intros P. cbn [getchar]. zb. reflexivity. Qed.
 
   (* from the start bracket to the first character of the name *)
   Lemma sep_to_name blanks n0 tl0 s E :
@@ -576,13 +660,15 @@ Section Sep.
   Record wfs (n : list Z) : Prop := mkWfs {
     ws_chars : Forall (fun c => snc c = true) n;
     ws_ne : n <> [];
+    ws_first : isspace (hd 0 n) = false;
+    ws_last : isspace (last n 0) = false;
     ws_check : ncheck_go n true (asect a) = 0;
     ws_len : len n <= IDENT_MAX }.
 
   Lemma snc_nosep n : Forall (fun c => snc c = true) n -> existsb (Z.eqb SEP) n = false.
   Proof.
-    intros H. apply onc_nosep. eapply Forall_impl; [|exact H]. intros c X. unfold snc in X.
-    now apply andb_true_iff in X.
+    induction 1 as [|c n Hc _ IH]; [reflexivity|]. cbn [existsb]. rewrite IH, orb_false_r.
+    apply snc_spec in Hc. unfold SEP. apply Z.eqb_neq. lia.
   Qed.
 
   (* the section name between the brackets *)
@@ -591,44 +677,36 @@ Section Sep.
     exists s', sep_first fs a (hws (d_mid1 d) ++ n ++ hws (d_mid2 d) ++ 93 :: rest) s = (PSection, rest, s') /\
                pelems (pth s') = E ++ [n] /\ pbuf (pth s') = true /\ pcurr s' = Z.lor PSection PName.
   Proof.
-    intros [NC NE NK NLEN] RD. destruct n as [|n0 n']; [now destruct NE|].
-    pose proof (Forall_inv NC) as H0. cbn beta in H0.
-    assert (B0 : 0 < n0 < 256).
-    { unfold snc in H0. apply andb_true_iff in H0. destruct H0 as [H1 _]. apply onc_spec in H1. tauto. }
+    intros [NC NE NF NL NK NLEN] RD. destruct n as [|n0 n']; [now destruct NE|]. cbn [hd] in NF.
+    pose proof (Forall_inv NC) as H0. cbn beta in H0. apply snc_spec in H0 as H0'.
+    assert (B0 : 0 < n0 < 256) by lia.
     cbn [app].
     destruct (sep_to_name (hws (d_mid1 d)) n0 (n' ++ hws (d_mid2 d) ++ 93 :: rest) s E (hws_hspaces _) B0 RD)
       as (s1 & E1 & P1 & V1 & C1).
     rewrite E1. rewrite len_cons in NLEN. unfold IDENT_MAX in NLEN. pose proof (len_nonneg n').
     assert (P1' : pth s1 = mkPath E (n0 :: []) (len (n0 :: [])) (pfirst (pth s)) false true) by exact P1.
     pose proof (snc_nosep _ NC) as NS.
-    assert (LN : len (rev n' ++ [n0]) = len (n0 :: n')).
-    { unfold len. rewrite app_length, rev_length. cbn [length]. lia. }
-    destruct (hws (d_mid2 d)) as [|b0 bs] eqn:HB.
-    - cbn [app].
-      destruct (sep_scan n' n0 s1 93 rest E [] (pfirst (pth s)) false NC) as (s2 & E2 & P2 & V2 & C2);
-        [lia|exact P1'|now right|rewrite len_cons, len_nil; unfold VALID_MOD; lia|].
-      rewrite E2, sep_step_end.
-      assert (NE0 : n0 :: n' <> []) by discriminate.
-      assert (V2' : valid s2 = len (n0 :: n')) by (rewrite V2; exact LN).
-      destruct (section_add_gen (asect a) s2 E [93] (n0 :: n') (pfirst (pth s)) true (Z.lor PSection PName) rest NE0 NK NS P2 V2')
-        as (s' & E3 & Q).
-      exists s'. auto.
-    - assert (FB : Forall (fun c => hspace c = true) (b0 :: bs)) by (rewrite <- HB; apply hws_hspaces).
-      pose proof (Forall_inv FB) as Hb. cbn beta in Hb. apply hspace_spec in Hb as Hb'.
-      cbn [app].
-      destruct (sep_scan n' n0 s1 b0 (bs ++ 93 :: rest) E [] (pfirst (pth s)) false NC) as (s2 & E2 & P2 & V2 & C2);
-        [lia|exact P1'|now right|rewrite len_cons, len_nil; unfold VALID_MOD; lia|].
-      rewrite E2.
-      destruct (sep_scan_blanks bs b0 s2 93 rest E (rev n' ++ [n0]) (pfirst (pth s)) FB) as (s3 & E3 & P3 & V3 & C3); [lia|exact P2|].
-      rewrite E3, sep_step_end.
-      assert (NE0 : n0 :: n' <> []) by discriminate.
-      assert (V3' : valid s3 = len (n0 :: n')) by (rewrite V3, V2; exact LN).
-      assert (P3' : pth s3 = mkPath E ((93 :: rev bs ++ [b0]) ++ rev (n0 :: n')) (len ((93 :: rev bs ++ [b0]) ++ rev (n0 :: n')))
-                                 (pfirst (pth s)) true true).
-      { rewrite P3. cbn [rev app]. rewrite <- !app_assoc. reflexivity. }
-      destruct (section_add_gen (asect a) s3 E (93 :: rev bs ++ [b0]) (n0 :: n') (pfirst (pth s)) true (Z.lor PSection PName) rest
-                  NE0 NK NS P3' V3') as (s' & E4 & Q).
-      exists s'. auto.
+    set (B := hws (d_mid2 d)). pose proof (hws_hspaces (d_mid2 d)) as FB. fold B in FB.
+    assert (FW : Forall (fun c => snc c = true) (n0 :: n' ++ B)).
+    { constructor; [exact H0|]. apply Forall_app. split; [exact (Forall_inv_tail NC)|].
+      eapply Forall_impl; [|exact FB]. intros c Hh. apply hspace_spec in Hh. apply snc_spec. lia. }
+    assert (RV : rev (n' ++ B) ++ [n0] = rev B ++ rev (n0 :: n')).
+    { rewrite rev_app_distr. cbn [rev]. now rewrite app_assoc. }
+    assert (VN : vlr (rev (n' ++ B) ++ [n0]) = len (n0 :: n')).
+    { rewrite RV. apply vlr_name; [exact FB|discriminate|exact NL]. }
+    rewrite app_assoc.
+    destruct (sep_scan_v (n' ++ B) n0 s1 93 rest E [] (pfirst (pth s)) false FW) as (s2 & E2 & P2 & V2 & C2);
+      [lia|exact P1'|now right|exact V1| |].
+    { rewrite VN, len_cons. unfold VALID_MOD. lia. }
+    rewrite E2, sep_step_end.
+    assert (NE0 : n0 :: n' <> []) by discriminate.
+    assert (V2' : valid s2 = len (n0 :: n')) by (rewrite V2; exact VN).
+    assert (P2' : pth s2 = mkPath E ((93 :: rev B) ++ rev (n0 :: n')) (len ((93 :: rev B) ++ rev (n0 :: n')))
+                               (pfirst (pth s)) true true).
+    { rewrite P2, RV. reflexivity. }
+    destruct (section_add_gen (asect a) s2 E (93 :: rev B) (n0 :: n') (pfirst (pth s)) true (Z.lor PSection PName) rest
+                NE0 NK NS P2' V2') as (s' & E3 & Q).
+    exists s'. auto.
   Qed.
 
   (* ---- the elements through mpt_parse_format_sep ---- *)
@@ -636,16 +714,17 @@ Section Sep.
   Proof. intros [->|[->| ->]]; reflexivity. Qed.
 
   Lemma sep_option d n v rest s E prev :
-    prev = 1 \/ prev = 9 \/ prev = 11 -> wfo (aopt a) n -> Forall (fun c => c <> 91) n -> wf_value v = true -> ready s E ->
+    prev = 1 \/ prev = 9 \/ prev = 11 -> wfo (aopt a) (araw a) n -> hd 0 n <> 91 -> wf_value v = true -> ready s E ->
     exists s',
       format_sep fs a prev (print_opt d n v ++ rest) s = ((match v with [] => 3 | _ => 7 end), rest, s') /\
       pelems (pth s') = E ++ [n] /\ pcurr s' = 11 /\ valid s' = len v /\
       (v <> [] -> post_read s' (len v) = Some v).
   Proof.
     intros PV WN N91 WV RD. unfold print_opt. rewrite <- !app_assoc.
-    destruct n as [|n0 n']; [now destruct (wo_ne _ _ WN)|].
-    pose proof (Forall_inv (wo_chars _ _ WN)) as H0. cbn beta in H0. apply onc_spec in H0 as H0'.
-    pose proof (Forall_inv N91) as H91. cbn beta in H91.
+    destruct n as [|n0 n']; [now destruct (wo_ne _ _ _ WN)|].
+    pose proof (Forall_inv (wo_chars _ _ _ WN)) as H0. cbn beta in H0. apply onb_spec in H0 as H0'.
+    pose proof (wo_first _ _ _ WN) as HS0. cbn [hd] in HS0.
+    pose proof N91 as H91. cbn [hd] in H91.
     unfold format_sep. rewrite (land15_ok prev PV).
     unfold nextvis. rewrite (nextvis_go_ext fs dfmt_fs). cbn [app].
     destruct (nv_lead d (n0 :: n' ++ hws (d_mid1 d) ++ 61 :: hws (d_mid2 d) ++ print_value d v ++
